@@ -9,7 +9,7 @@ Tally(r) == TLCSet(r, TLCGet(r) + 1)
 ASSUME TLCSet(21, 0) /\ TLCSet(22, 0)
 VARIABLES l, db, idx
 
-Other == [a |-> {}, b |-> {}, class |-> {}, uuid |-> {}]
+Other == [a |-> {}, b |-> {}, class |-> {90}, uuid |-> {}]   \* 90 = "object": every entry has a class
 MkDb(r) ==
   LET pop == r.db
       ids == {pop[j].id : j \in DOMAIN pop}
@@ -54,13 +54,13 @@ JudgeSearch(r, ln) ==
       cf    == Cfg(0, FALSE, PresAttrs(idx))
       idl   == F2I(r.rf, db, cf)
       l2res == wf /\ r.rerr = "" /\ r.ro # 2 /\ SearchIdl(r.rf, db, 0, idl) = res
-      \* the candidate set is explained by the transcription of the code as it is, or of the proposed repair
+      \* explained by the transcription of the code as it is, or of the proposed repair (anchored rewrite + D2 hunk)
       idlF  == F2I(r.rf, db, Cfg(0, TRUE, PresAttrs(idx)))
       idlok(i) == i.k = r.ik /\ r.io # 2 /\ (i.k = "allids" \/ i.s = ResSet(r.is, r.io))
       l2    == /\ wf
-               /\ r.rf = Rewrite(Orig(r), idx, 0)
-               /\ \/ (idlok(idl) /\ l2res)
-                  \/ (idlok(idlF) /\ r.rerr = "" /\ r.ro # 2 /\ SearchIdl(r.rf, db, 0, idlF) = res)
+               /\ \/ (r.rf = Rewrite(Orig(r), idx, 0) /\ idlok(idl) /\ l2res)
+                  \/ (r.rf = RewriteFixed(Orig(r), idx, 0) /\ idlok(idlF) /\ r.rerr = "" /\ r.ro # 2
+                      /\ SearchIdl(r.rf, db, 0, idlF) = res)
                /\ r.wres = r.res /\ r.wo = r.ro
                /\ r.ex = (IF res # {} THEN 1 ELSE 0)
       \* signature of an L1 failure: known structural class + whether the transcription predicts the answer
